@@ -15,5 +15,19 @@ PROPS = {
     ),
 }
 
+PROPS["C02"] = dict(
+    pkg="c02", level="exploration",
+    rule="traces for an independent RTMP 1.0 reference chunker (legal header-type choice per chunk-stream state, 1/2/3-byte ids, interleaving, Set Chunk Size in between, "
+         "single rule breaks) fed to the library reader; bounded-exhaustive odometer over the abstract alphabet for short traces; per-check rules under coverage.checks",
+    quick=dict(timeout=600), thorough=dict(shards=16, timeout=3000),
+    technique="property-based testing (rapid) + bounded-exhaustive odometer: differential against an independent reference chunker written from RTMP 1.0; negative traces with one rule break",
+    level_text="Differential exploration: random long traces over many chunk streams plus a complete enumeration of an abstract alphabet for traces of depth 2 (quick) / 3 (thorough). "
+               "The odometer is exhaustive over its stated alphabet only; everything else is sampled.",
+    level_note="Trusts the reference chunker's reading of RTMP 1.0 sections 5.3.1.1-5.3.1.3 (continuation chunks are type 3 and repeat the extended timestamp). "
+               "Traces matching the open known finding rtmp.ext-ts.delta are excluded by construction and counted.",
+    assumptions=["reference chunker internal/ref/rtmpref follows RTMP 1.0 section 5.3", "no Abort messages (statement)",
+                 "non-type-0 headers with an extended timestamp are excluded while finding rtmp.ext-ts.delta is open"],
+)
+
 NOT_APPLICABLE = {}
 HOOK_COMMITS = []
